@@ -713,3 +713,25 @@ package interpreter
 //@     invariant [postings-apart] {C11} forall(k, 0, len(postings), notCell(addr(st), postings[k].Amount) && allocated(ref(postings[k].Amount)))
 //@     invariant [state] varsOk(addr(st)) && cacheOk(addr(st)) && cacheOwned(addr(st)) && metaOk(addr(st))
 //@     invariant [owned] {C11} fresh(ref(st.ParsedVars)) && fresh(ref(st.TxMeta)) && fresh(ref(st.SetAccountsMeta)) && fresh(ref(addr(st))) && forallstr(a, has(st.SetAccountsMeta, a) ==> fresh(ref(st.SetAccountsMeta[a])))
+
+// ---------------------------------------------------------------- the text of a value (C13): what is written to metadata
+// and read back.  decstr / ratstr are the library's own renderings (big.Int.String, big.Rat.String: "n/d").
+//@ func (String).String
+//@   ensures [same-text] {C13} result == v
+//@   modifies nothing
+//@ func (AccountAddress).String
+//@   ensures [same-text] {C13} result == v
+//@   modifies nothing
+//@ func (Asset).String
+//@   ensures [same-text] {C13} result == v
+//@   modifies nothing
+//@ func (MonetaryInt).String
+//@   ensures [decimal] {C13} result == decstr(val(v))
+//@   modifies nothing
+//@ func (Portion).String
+//@   ensures [fraction-text] {C13} result == ratstr(rat(p))
+//@   modifies nothing
+//@ func (Portion).MarshalJSON
+//@   modifies nothing
+//@ func (MonetaryInt).MarshalJSON
+//@   modifies nothing
